@@ -385,6 +385,9 @@ impl<'tcx> Cx<'tcx> {
                 let tenv = TypingEnv::post_analysis(tcx, def);
                 let a: Vec<String> = args.iter().map(|a| js(&self.garg(a))).collect();
                 let mut s = format!("{{\"def\":{},\"args\":[{}]", js(&self.path(*did)), a.join(","));
+                if tcx.fn_sig(*did).skip_binder().safety().is_unsafe() {
+                    let _ = write!(s, ",\"unsafe\":true");
+                }
                 // trait of the callee, if it is a trait method
                 if let Some(tr) = tcx.trait_of_assoc(*did) {
                     let _ = write!(s, ",\"trait\":{}", js(&self.path(tr)));
